@@ -15,6 +15,69 @@ from . import values as V
 from .values import Cx, Arr, Arr2, Unsupported, EngineError
 
 
+LAZY_LIMIT = 60000      # terms of numerator + denominator beyond which a lazy fraction is cancelled after all
+
+
+def _raw(n, d):
+    dom = _DOM[0]
+    if len(n) + len(d) > LAZY_LIMIT:
+        return dom.K.new(n, d)
+    if not n:
+        return dom.K.zero
+    return dom.K.raw_new(n, d)
+
+
+def f_add(f, g):
+    if not _DOM[0].lazy:
+        return f + g
+    if f.denom == g.denom:
+        return _raw(f.numer + g.numer, f.denom)
+    return _raw(f.numer * g.denom + g.numer * f.denom, f.denom * g.denom)
+
+
+def f_sub(f, g):
+    if not _DOM[0].lazy:
+        return f - g
+    if f.denom == g.denom:
+        return _raw(f.numer - g.numer, f.denom)
+    return _raw(f.numer * g.denom - g.numer * f.denom, f.denom * g.denom)
+
+
+def f_mul(f, g):
+    if not _DOM[0].lazy:
+        return f * g
+    if not f.numer or not g.numer:
+        return _DOM[0].K.zero
+    # the cheapest cancellations: a factor that is literally the other side's denominator
+    if f.numer == g.denom:
+        return _raw(g.numer, f.denom)
+    if g.numer == f.denom:
+        return _raw(f.numer, g.denom)
+    return _raw(f.numer * g.numer, f.denom * g.denom)
+
+
+def f_div(f, g):
+    if not _DOM[0].lazy:
+        return f / g
+    if not g.numer:
+        raise ZeroDivisionError
+    if f.denom == g.denom:
+        return _raw(f.numer, g.numer)
+    if f.numer == g.numer:
+        return _raw(g.denom, f.denom)
+    return _raw(f.numer * g.denom, f.denom * g.numer)
+
+
+def f_neg(f):
+    if not _DOM[0].lazy:
+        return -f
+    return _raw(-f.numer, f.denom)
+
+
+def f_cancel(f):
+    return _DOM[0].K.new(f.numer, f.denom) if _DOM[0].lazy else f
+
+
 class Q:
     """element of Q(v...)"""
     __slots__ = ("f", "sq")
@@ -45,7 +108,7 @@ class Q:
         c = self._c(o)
         if c is None:
             return NotImplemented
-        return mk(self._me() + c)
+        return mk(f_add(self._me(), c))
 
     __radd__ = __add__
 
@@ -53,24 +116,24 @@ class Q:
         c = self._c(o)
         if c is None:
             return NotImplemented
-        return mk(self._me() - c)
+        return mk(f_sub(self._me(), c))
 
     def __rsub__(self, o):
         c = self._c(o)
         if c is None:
             return NotImplemented
-        return mk(c - self._me())
+        return mk(f_sub(c, self._me()))
 
     def __mul__(self, o):
         c = self._c(o)
         if c is None:
             return NotImplemented
-        return mk(self._me() * c)
+        return mk(f_mul(self._me(), c))
 
     __rmul__ = __mul__
 
     def __neg__(self):
-        return mk(-self._me())
+        return mk(f_neg(self._me()))
 
     def __pos__(self):
         return self
@@ -141,8 +204,42 @@ class Q:
         return "Q(%s)" % (s if len(s) < 120 else s[:120] + "...")
 
 
+def _reduce_poly(poly, rel):
+    """remainder modulo g^2 - c for every algebraic constant g (exact: g^(2q+r) = c^q g^r)"""
+    for idx, c in rel:
+        if all(m[idx] < 2 for m in poly.keys()):
+            continue
+        new = {}
+        for mon, co in poly.terms():
+            e = mon[idx]
+            if e >= 2:
+                mon = mon[:idx] + (e % 2,) + mon[idx + 1:]
+                co = co * c ** (e // 2)
+            v = new.get(mon, 0) + co
+            if v:
+                new[mon] = v
+            else:
+                new.pop(mon, None)
+        poly = poly.ring.from_dict(new)
+    return poly
+
+
 def mk(f):
-    """constants are lowered to Python numbers"""
+    """constants are lowered to Python numbers; powers of algebraic constants are reduced"""
+    d = _DOM[0]
+    if d is not None and d.rel and not (f.numer.is_ground and f.denom.is_ground):
+        n2, d2 = _reduce_poly(f.numer, d.rel), _reduce_poly(f.denom, d.rel)
+        if n2 is not f.numer or d2 is not f.denom:
+            if d2 == 0:
+                raise Unsupported("division by zero in the exact domain (algebraic constant)")
+            f = d.K.new(n2, d2) if not d.lazy else _raw(n2, d2)
+    if d is not None and d.lazy:
+        if not f.numer:
+            return Fraction(0)
+        if not (f.numer.is_ground and f.denom.is_ground) and len(f.numer) == len(f.denom) and f.numer.LM == f.denom.LM \
+                and f.numer * f.denom.LC == f.denom * f.numer.LC:
+            c = f.numer.LC / f.denom.LC
+            return Fraction(int(c.numerator), int(c.denominator))
     if f.numer.is_ground and f.denom.is_ground:
         n = f.numer.coeff(1) if f.numer else QQ(0)
         d = f.denom.coeff(1)
@@ -170,10 +267,15 @@ class RingDom:
     materialise_limit = 10 ** 6
     expand_limit = 10 ** 6
 
+    # algebraic constants: a generator of this name stands for the positive square root of the number
+    ALGEBRAIC = {"sqrt2": 2, "sqrt3": 3}
+
     def __init__(self, names):
         res = field(list(names), QQ)
         self.K = res[0]
         self.gens = dict(zip(names, res[1:]))
+        self.rel = [(list(names).index(n), QQ(c)) for n, c in self.ALGEBRAIC.items() if n in names]
+        self.lazy = False       # True: fractions are not cancelled after each operation (no multivariate gcd); equality by cross-multiplication
         self.assumptions = []       # comparisons decided on the generic path
         self.where = "?"
         self.notes = []
@@ -189,11 +291,15 @@ class RingDom:
         self.pc_getter = lambda: []
         self.brancher = None
 
+    point = None        # dict name -> Fraction: these symbols are replaced by exact rational values (refutation pre-run)
+
     def sym(self, name):
+        if self.point is not None and name in self.point:
+            return self.point[name]
         return Q(self.gens[name])
 
     def csym(self, name):
-        return Cx(Q(self.gens[name + "_r"]), Q(self.gens[name + "_i"]))
+        return Cx(self.sym(name + "_r"), self.sym(name + "_i"))
 
     # ---- domain interface
     def is_scalar(self, v):
@@ -224,9 +330,9 @@ class RingDom:
             if r is not None:
                 return r
         fb = self.lift(b)
-        if fb == 0:
+        if not fb.numer:
             raise Unsupported("division by zero in the exact domain")
-        return mk(self.lift(a) / fb)
+        return mk(f_div(self.lift(a), fb))
 
     def to_real(self, v):
         return v
@@ -269,7 +375,7 @@ class RingDom:
     def _exact_sqrt(self, t):
         """sqrt of a rational function that is the square of a manifestly non-negative one (all
         monomials with even exponents and positive coefficients), e.g. sqrt((kr^2+ki^2)^2)"""
-        f = self.lift(t)
+        f = f_cancel(self.lift(t))
 
         def root(poly):
             c, fac = poly.sqf_list()
@@ -292,7 +398,7 @@ class RingDom:
         rn, rd = root(f.numer), root(f.denom)
         if rn is None or rd is None:
             return None
-        return mk(self.K(rn) / self.K(rd))
+        return mk(f_div(self.K(rn), self.K(rd)))
 
     def abs(self, a):
         if isinstance(a, Cx):
@@ -300,10 +406,33 @@ class RingDom:
         # |x| of a real symbolic value: x itself when manifestly non-negative, else only its square is usable
         return self.sqrt(a * a)
 
+    def angle(self, omega, t):
+        """register generator `omega` as an angle in (-pi, pi) whose half-angle tangent is generator `t`:
+        exp(i*omega) = ((1 - t^2) + 2 t i) / (1 + t^2)  (rational parametrisation of the unit circle, -1 excluded)"""
+        if not hasattr(self, "angles"):
+            self.angles = []
+        T = self.sym(t)
+        den = 1 + T * T
+        self.angles.append((self.gens[omega], Cx((1 - T * T) / den, (2 * T) / den)))
+
     def elem(self, fname, x):
+        if fname == "exp" and isinstance(x, Cx) and self.is_zero(x.re) and isinstance(x.im, Q):
+            for g, val in getattr(self, "angles", []):
+                if x.im.f == g:
+                    return val
+        if fname in ("log2", "log10", "log") and V.is_conc(x) and not isinstance(x, Cx) and x > 0:
+            # a concrete size (nextpow2 = ceil(log2(n))): exact when it is an exact power, otherwise a floating value that is
+            # only meaningful under ceil / floor (it is never within 1e-9 of an integer for rationals of this size)
+            import math
+            v = {"log2": math.log2, "log10": math.log10, "log": math.log}[fname](float(x))
+            if abs(v - round(v)) < 1e-9:
+                raise Unsupported("%s(%s) too close to an integer to be rounded safely" % (fname, x))
+            return Fraction(v)
         raise Unsupported("%s in the exact domain" % fname)
 
     def pi(self):
+        if "pi" in self.gens:
+            return self.sym("pi")      # an indeterminate: only identities that hold for every value are decided
         raise Unsupported("pi in the exact domain")
 
     def out_of_range(self, dtype):
@@ -315,9 +444,10 @@ class RingDom:
 
     def cmp(self, op, a, b):
         fa, fb = self.lift(a), self.lift(b)
-        d = fa - fb
-        if d == 0:
+        d = f_sub(fa, fb)
+        if not d.numer:
             return op in ("==", "<=", ">=")
+        d = f_cancel(d)
         if d.numer.is_ground and d.denom.is_ground:
             q = Fraction(str(d.numer.coeff(1))) / Fraction(str(d.denom.coeff(1)))
             return {"<": q < 0, "<=": q <= 0, ">": q > 0, ">=": q >= 0, "==": q == 0, "!=": q != 0}[op]
@@ -369,8 +499,69 @@ class RingDom:
             r = r + body(j)
         return r
 
-    def dtft(self, *a, **k):
-        raise Unsupported("DTFT in the exact domain")
+    def cis(self, q, den):
+        """exp(2 pi i q/den) exactly, for angles that are multiples of 90, 45 or 30 degrees (sqrt2 / sqrt3 must be generators)"""
+        q, den = int(q), int(den)
+        q %= den
+        from math import gcd
+        g = gcd(q, den)
+        q, den = q // g, den // g
+        half = Fraction(1, 2)
+        if den in (1, 2, 4):
+            k = q * (4 // den)
+            return Cx([Fraction(1), Fraction(0), Fraction(-1), Fraction(0)][k % 4], [Fraction(0), Fraction(1), Fraction(0), Fraction(-1)][k % 4])
+        if den == 8:
+            if "sqrt2" not in self.gens:
+                raise Unsupported("exact twiddle for %d points needs the generator sqrt2" % den)
+            h = self.sym("sqrt2") * half
+            cos = [Fraction(1), h, Fraction(0), -h, Fraction(-1), -h, Fraction(0), h]
+            return Cx(cos[q % 8], cos[(q - 2) % 8])
+        if den in (3, 6, 12):
+            if "sqrt3" not in self.gens:
+                raise Unsupported("exact twiddle for %d points needs the generator sqrt3" % den)
+            h = self.sym("sqrt3") * half
+            k = q * (12 // den)
+            cos = [Fraction(1), h, half, Fraction(0), -half, -h, Fraction(-1), -h, -half, Fraction(0), half, h]
+            return Cx(cos[k % 12], cos[(k - 3) % 12])
+        raise Unsupported("exact twiddle factors for a %d-point transform" % den)
+
+    def dtft(self, seq_fn, length, num, den):
+        """sum_j s[j] exp(-2 pi i j num/den), exact, for concrete sizes whose twiddle factors are in Q(i, sqrt2, sqrt3)"""
+        if not (V.is_conc(length) and V.is_conc(num) and V.is_conc(den)) or Fraction(num).denominator != 1:
+            raise Unsupported("DTFT at a symbolic or off-grid frequency in the exact domain")
+        acc = Cx(Fraction(0), Fraction(0))
+        for j in range(int(length)):
+            v = seq_fn(j)
+            if V.is_conc(v) and not isinstance(v, Cx) and v == 0:
+                continue
+            acc = acc + V.Cx.of(v) * self.cis(-j * int(num), int(den))
+        return acc
+
+    def lib_lstsq(self, interp, A, b):
+        """scipy.linalg.lstsq contract (A-LSQ) made executable: the solution of the normal equations A^H A x = A^H b,
+        by exact elimination (generic path: the Gram matrix is non-singular)"""
+        rows, cols = int(A.r), int(A.c)
+        Al = [[V.Cx.of(A.at(i, j)) for j in range(cols)] for i in range(rows)]
+        bl = [V.Cx.of(b.at(i)) for i in range(rows)]
+        G = [[sum((V.s_conj(Al[r][i]) * Al[r][j] for r in range(rows)), Cx(Fraction(0), Fraction(0))) for j in range(cols)] for i in range(cols)]
+        h = [sum((V.s_conj(Al[r][i]) * bl[r] for r in range(rows)), Cx(Fraction(0), Fraction(0))) for i in range(cols)]
+        for c in range(cols):
+            piv = G[c][c]
+            if self.is_zero(piv):
+                raise Unsupported("zero pivot in the exact least-squares solve")
+            for r in range(c + 1, cols):
+                f = G[r][c] / piv
+                G[r] = [G[r][k] - f * G[c][k] for k in range(cols)]
+                h[r] = h[r] - f * h[c]
+        x = [None] * cols
+        for c in reversed(range(cols)):
+            acc = h[c]
+            for k in range(c + 1, cols):
+                acc = acc - G[c][k] * x[k]
+            x[c] = acc / G[c][c]
+        cx = A.dtype == "complex" or b.dtype == "complex"
+        sol = Arr.from_items([v if cx else v.re for v in x], dtype="complex" if cx else "float")
+        return (sol, Arr.from_items([]), cols, Arr.from_items([]))
 
     def code_of(self, v):
         return 0
@@ -381,7 +572,12 @@ class RingDom:
             return self.is_zero(v.re) and self.is_zero(v.im)
         if V.is_conc(v):
             return v == 0
-        return self.lift(v) == 0
+        f = self.lift(v)
+        if not f.numer:
+            return True
+        if self.rel and self.lazy:
+            return not _reduce_poly(f.numer, self.rel)
+        return False
 
     def equal(self, a, b):
         return self.is_zero(V.Cx.of(a) - V.Cx.of(b)) if (isinstance(a, Cx) or isinstance(b, Cx)) else self.is_zero(a - b)
